@@ -165,12 +165,21 @@ class Schema:
         self.defs = []  # top-level definitions in declaration order
         self.counter = 0
         self.comments = True
+        self.odd_def_names = None  # (rng, pool): unusual but legal definition names (compiler world only)
+        self.used_names = {"Packet"}
         self.style = None  # printing noise (comments, semicolons, hex, typedef, CRLF): non-fleet only
         self.options = []  # proto-level options [(name, literal)]
 
     def fresh(self, prefix):
         k = self.counter
         self.counter += 1
+        if self.odd_def_names is not None:
+            rng, pool = self.odd_def_names
+            if rng.chance(0.25):
+                cand = rng.choice(pool)
+                if cand not in self.used_names:
+                    self.used_names.add(cand)
+                    return cand
         return prefix + letters(k)
 
     def clone(self):
@@ -324,6 +333,8 @@ class Generator:
         self.rng = rng
         self.cfg = cfg
         self.s = Schema(name)
+        if cfg.odd_names:
+            self.s.odd_def_names = (rng.sub("oddnames"), ["_", "__", "_x", "X_", "_3d_point", "X9", "ALLCAPS", "lower", "camelCase", "snake_case", "HTTP_Frame_", "A", "T", "Type", "Error", "String", "List", "Data", "Message", "Enum", "Struct", "Class", "Self", "Go", "Map", "Bp", "Ctx", "Json"])
         self.top_pool = []  # named types usable from any later top-level definition
 
     # scalars
@@ -444,7 +455,7 @@ class Generator:
         if c.shadow and parent is not None and name is None and r.chance(0.5) and all(n.name != parent.name for n in parent.nested):
             m.name = parent.name  # the same simple name at two nesting levels
         nums = r.sample(range(1, 40 if r.chance(0.8) else 256), nfields)
-        odd = ["type", "_lead", "trail_", "ALLCAPS", "camelCase", "PascalCase", "x9", "a__b", "value", "data", "s", "m", "id", "len"]
+        odd = ["type", "_lead", "trail_", "ALLCAPS", "camelCase", "PascalCase", "x9", "a__b", "value", "data", "s", "m", "id", "len", "_", "__", "_3d", "X", "ctx", "di", "size", "encode", "bp"]
         for k, num in enumerate(nums):
             fname = "x_" + letters(k)
             if c.odd_names and r.chance(0.3):
